@@ -763,13 +763,15 @@ func (w *world) encStmt(e *env, s ast.Stmt, out *encOut) {
 				}
 			}
 		}
-		// msgID, _ := hex.DecodeString(d.MsgID)
+		// msgID, err := hex.DecodeString(d.MsgID)   (followed by `if err != nil { return nil, err }`, see IfStmt);
+		// the form that drops the error (`msgID, _ :=`) is not in the fragment: the model's hexFixed refuses bad hex
 		if len(st.Lhs) == 2 && len(st.Rhs) == 1 && st.Tok == token.DEFINE {
 			if c, ok := st.Rhs[0].(*ast.CallExpr); ok {
 				if fn, _ := w.callee(e, c); fullName(fn) == "encoding/hex.DecodeString" {
-					if id2, ok := st.Lhs[1].(*ast.Ident); ok && id2.Name == "_" {
+					if id2, ok := st.Lhs[1].(*ast.Ident); ok && id2.Name != "_" {
 						if k, p, ok := w.strArg(e, c.Args[0]); ok && k == "field" {
 							e.bytesL[e.info.ObjectOf(st.Lhs[0].(*ast.Ident))] = "hexdec:" + p
+							e.locals[e.info.ObjectOf(id2)] = "HEXERR"
 							return
 						}
 					}
@@ -802,6 +804,21 @@ func (w *world) encStmt(e *env, s ast.Stmt, out *encOut) {
 			}
 		}
 	case *ast.IfStmt:
+		// if err != nil { return nil, err } right after the hex decoding
+		if st.Init == nil && st.Else == nil && len(st.Body.List) == 1 {
+			if b, ok := unparen(st.Cond).(*ast.BinaryExpr); ok && b.Op == token.NEQ {
+				if id, ok := unparen(b.X).(*ast.Ident); ok && e.locals[e.info.ObjectOf(id)] == "HEXERR" {
+					if nl, ok := unparen(b.Y).(*ast.Ident); ok && nl.Name == "nil" {
+						if r, ok := st.Body.List[0].(*ast.ReturnStmt); ok && len(r.Results) == 2 && isObj(e, r.Results[1], e.info.ObjectOf(id)) {
+							if n0, ok := unparen(r.Results[0]).(*ast.Ident); ok && n0.Name == "nil" {
+								delete(e.locals, e.info.ObjectOf(id))
+								return
+							}
+						}
+					}
+				}
+			}
+		}
 		if st.Init == nil && st.Else == nil {
 			if c, ok := w.condExpr(e, st.Cond); ok {
 				var as []string
@@ -1199,6 +1216,52 @@ func (w *world) decStmt(e *env, s ast.Stmt, out *decOut) {
 			return
 		}
 	case *ast.IfStmt:
+		// if p.Header.Status != 0 && b.Error() == nil && b.Remaining() == 0 { return nil }: a body that is absent on error
+		if st.Init == nil && st.Else == nil && len(st.Body.List) == 1 && e.reader != nil {
+			if r, ok := st.Body.List[0].(*ast.ReturnStmt); ok && len(r.Results) == 1 {
+				if id, ok := unparen(r.Results[0]).(*ast.Ident); ok && id.Name == "nil" {
+					var conj []ast.Expr
+					var flat func(x ast.Expr)
+					flat = func(x ast.Expr) {
+						if b, ok := unparen(x).(*ast.BinaryExpr); ok && b.Op == token.LAND {
+							flat(b.X)
+							flat(b.Y)
+							return
+						}
+						conj = append(conj, unparen(x))
+					}
+					flat(st.Cond)
+					field, noErr, atEnd, other := "", false, false, false
+					for _, c := range conj {
+						b, ok := c.(*ast.BinaryExpr)
+						if !ok {
+							other = true
+							continue
+						}
+						zero := func(x ast.Expr) bool { n, ok := constInt(e, x); return ok && n == 0 }
+						isNil := func(x ast.Expr) bool { id, ok := unparen(x).(*ast.Ident); return ok && id.Name == "nil" }
+						switch {
+						case b.Op == token.NEQ && zero(b.Y):
+							if p, ok := w.fieldPath(e, b.X); ok && uintBytes(e.info.TypeOf(b.X)) > 0 && field == "" {
+								field = p
+							} else {
+								other = true
+							}
+						case b.Op == token.EQL && isNil(b.Y) && w.isReaderCall(e, b.X, "Error"):
+							noErr = true
+						case b.Op == token.EQL && zero(b.Y) && w.isReaderCall(e, b.X, "Remaining"):
+							atEnd = true
+						default:
+							other = true
+						}
+					}
+					if field != "" && noErr && atEnd && !other && len(conj) == 3 {
+						out.ops = append(out.ops, fmt.Sprintf(".stopIfAbsent %s", q(field)))
+						return
+					}
+				}
+			}
+		}
 		// if b.Error() != nil { return b.Error() }   |   if err := b.Error(); err != nil { return err }
 		if st.Else == nil && len(st.Body.List) == 1 && e.reader != nil {
 			if r, ok := st.Body.List[0].(*ast.ReturnStmt); ok && len(r.Results) == 1 {
